@@ -82,6 +82,22 @@ def s_jadd(cx, rule, fn, point_type):
                 out += fe if p.neg else te
         return out
     raw = [raw_eq_edges(ax) for ax in 'xyz']
+    if not all(raw):
+        # the same guard written `self == p` with the derived (field-wise) equality of the point type: the derive must
+        # compare x, y and z
+        for bb, p, te, fe in G.bool_switches(fn, P):
+            if p.kind == 'eq' and len(p.args) == 2 and sorted([cn.c(p.args[0]), cn.c(p.args[1])]) == sorted(['$' + a, '$' + b]):
+                t_ = fn.blocks[bb]['term'] if fn.blocks[bb]['term'].get('k') == 'call' else None
+                eqs = [g for q_, g in cx.F.fns.items() if 'PartialEq for' in q_ and q_.endswith('::eq') and point_type.split('::')[0] in q_]
+                from . import rules_i as _I
+                full = False
+                for g in eqs:
+                    rr = _I.returns(g, cx.F, True)
+                    txt = ' '.join([' '.join(c_) for c_, _ in rr] + [v_ for _, v_ in rr])
+                    full = full or all(('eq($self.%s, $other.%s)' % (ax, ax)) in txt for ax in 'xyz')
+                if full:
+                    e_ = fe if p.neg else te
+                    raw = [e_, e_, e_]
     if all(raw):
         dbl = [d for d in dbl if not all(d not in fn.reachable(0, removed_edges=r) for r in raw)]
     if H and dbl:
